@@ -10,6 +10,7 @@ import (
 	"crypto/tls"
 	"errors"
 	"fmt"
+	"log/slog"
 	mrand "math/rand"
 	"net"
 	"runtime"
@@ -169,11 +170,16 @@ func (q *qpeer) runHistory(w *worker, ci int, h []script, seed int64) []event {
 	r.Ev = "reset"
 	evs := []event{r}
 	nstore := 0
+	lastOK := false
 	for k, op := range h {
 		e := blank()
 		e.K = k
 		switch op.Op {
 		case "store":
+			if !lastOK { // see runHistory in c20_test.go
+				e.Ev = "skip"
+				break
+			}
 			nstore++
 			id := 900 + nstore
 			cb := cookieBytes(uint64(seed), id)
@@ -223,6 +229,7 @@ func (q *qpeer) runHistory(w *worker, ci int, h []script, seed int64) []event {
 			}
 			q.mu.Unlock()
 			e.Ok, e.Panicked, e.Note = o.ok, o.panicked, o.note
+			lastOK = o.ok
 			e.Post = q.project(f.VerifData())
 			if o.ok {
 				e.Ret = q.project(o.ret)
@@ -252,7 +259,7 @@ func TestQUIC(t *testing.T) {
 			n := allocNet(t, 100+i)
 			defer n.close()
 			h := &logCapture{}
-			w := &worker{t: t, net: n, logh: h, log: newLogger(h)}
+			w := &worker{t: t, net: n, logh: h, log: slog.New(h)}
 			q := newQPeer(cert, n)
 			defer q.ln.Close()
 			for k := 0; ; k++ {
